@@ -2,12 +2,12 @@
 PROPS["C18"] = dict(
     props_file="Properties/C18.v",
     harnesses=[
-        dict(cmd="creds", mod="root", model="Model.Creds", quick=1000, thorough=100000, shard=250,
+        dict(cmd="creds", mod="root", model="Model.Creds", quick=800, thorough=60000, shard=200,
              require=["op.pull", "op.remove", "op.query", "op.multi", "op.connect", "op.len", "auth.nil",
                       "auth.sa.empty", "auth.sa.url", "auth.sa.bare", "auth.sa.bad",
                       "auth.form.userpass", "auth.form.token", "auth.form.base64",
                       "pull.invalid-ref", "pull.backend-fails", "query.docker-alias", "case.starts-unconnected"]),
-        dict(cmd="credsfetch", mod="root", model="Model.Headers", quick=320, thorough=20000, shard=80,
+        dict(cmd="credsfetch", mod="root", model="Model.Headers", quick=240, thorough=12000, shard=60,
              # only keys that depend on the generated inputs, not on what the implementation does with them
              require=["mirror.hdr0", "mirror.hdr1", "mirror.hdr2", "mirror.hdr3", "mirror.invalid", "mirrors.0", "mirrors.2",
                       "spawn.fetch", "spawn.check", "answer.403", "answer.400", "answer.401", "answer.3xx", "answer.2xx",
